@@ -237,7 +237,7 @@ def observed(aa, tr):
 
 def run_marked(case):
     """cut through a marked single bond (slash on both sides of the cut): no stereo expectation is attached,
-    but the annotations may not depend on the order in which the same base graph lists its nodes"""
+    but the annotations may not depend on the order in which the same base graph lists its nodes, and a double bond with both marks written keeps SOME relation"""
     from cgsmiles import MoleculeResolver
     contracts.clear()
     viol = []
@@ -264,6 +264,17 @@ def run_marked(case):
             b2.add_edges_from((a, b, dict(d)) for a, b, d in base.edges(data=True))
             cg, aa = MoleculeResolver.from_graph(case['frag_string'], b2).resolve()
             res.append(sig(aa))
+            # a double bond whose two substituents both carry their slash mark (in whichever fragment the substituent
+            # sits) has a cis/trans relation in the uncut molecule, so it has one here
+            tr = translate(aa, case.get('frag_atoms', {}))
+            have = set()
+            for n, lst in aa.nodes(data='ez_isomer'):
+                for tup in lst or []:
+                    have.add(frozenset((tr.get(tup[1]), tr.get(tup[2]))))
+            for a1, a2 in case.get('fully_marked', []):
+                if frozenset((a1, a2)) not in have and k == 0:
+                    viol.append(V('c15.marked_cut_relation_lost', f'{txt}: the double bond between generator atoms {a1} and {a2} has a slash mark next to both '
+                                  f'substituents, but the resolved molecule stores no cis/trans relation for it'))
         if any(r != res[0] for r in res[1:]):
             viol.append(V('c15.insertion_order_dependent', f'{txt}: stereo annotations differ when the same base graph (same keys) lists its nodes in another order: {[sorted(r, key=str) for r in res]}'))
     except ValueError:
